@@ -17,6 +17,7 @@ Lemma src_final_min_cols : final_min_cols = 1. Proof. reflexivity. Qed.
 Lemma src_final_min_rows : final_min_rows = 1. Proof. reflexivity. Qed.
 (* the source caps explicitly given dimensions (fixes/C15-explicit-over-limit.patch is applied) *)
 Lemma src_caps_explicit : caps_explicit = true. Proof. reflexivity. Qed.
+Lemma src_aspect_unscaled : aspect_unscaled = true. Proof. reflexivity. Qed.
 
 Lemma bind_ok {A B} (x : res A) (f : A -> res B) v :
   bind x f = Ok v -> exists a, x = Ok a /\ f a = Ok v.
@@ -43,8 +44,8 @@ Section Generic.
   Notation opt := (optimal_with num of_Z mul div is_zero ceil one).
   Notation eff := (effective_scale num mul is_zero one).
 
-  Lemma core_bounds W H cw ch cols rows mc mr C R :
-    1 <= mc -> 1 <= mr -> core W H cw ch cols rows mc mr = Ok (C, R) -> 1 <= C <= mc /\ 1 <= R <= mr.
+  Lemma core_bounds W H Wa Ha cw ch cols rows mc mr C R :
+    1 <= mc -> 1 <= mr -> core W H Wa Ha cw ch cols rows mc mr = Ok (C, R) -> 1 <= C <= mc /\ 1 <= R <= mr.
   Proof.
     intros Hmc Hmr E. unfold optimal_core in E.
     apply bind_ok in E. destruct E as [[c1 r1] [_ E]].
@@ -54,12 +55,13 @@ Section Generic.
   Qed.
 
   (* what optimal_with does when at most one dimension is explicit and the call succeeds *)
-  Lemma opt_unfold cap (cfg : config num) t w h cols rows amc amr scale v :
+  Lemma opt_unfold cap asp (cfg : config num) t w h cols rows amc amr scale v :
     ~ (is_some cols = true /\ is_some rows = true) ->
-    opt cap cfg t w h cols rows amc amr scale = Ok v ->
+    opt cap asp cfg t w h cols rows amc amr scale = Ok v ->
     (forall c, cols = Some c -> 1 <= c) /\ (forall r, rows = Some r -> 1 <= r) /\
     exists mc mr, get_max_cols_and_rows (cfg_max_cols _ cfg) (cfg_max_rows _ cfg) t amc amr = Ok (mc, mr) /\
       core (mul (of_Z w) (eff cfg scale)) (mul (of_Z h) (eff cfg scale))
+           (if asp then of_Z w else mul (of_Z w) (eff cfg scale)) (if asp then of_Z h else mul (of_Z h) (eff cfg scale))
            (fst (get_cell_size (cfg_cell_size _ cfg) (cfg_default_cell_size _ cfg) t))
            (snd (get_cell_size (cfg_cell_size _ cfg) (cfg_default_cell_size _ cfg) t))
            (if cap then option_map (fun c => Z.min c mc) cols else cols)
@@ -72,7 +74,9 @@ Section Generic.
                     let cols := if cap then option_map (fun c => Z.min c mc) cols else cols in
                     let rows := if cap then option_map (fun r => Z.min r mr) rows else rows in
                     let '(cw, ch) := get_cell_size (cfg_cell_size _ cfg) (cfg_default_cell_size _ cfg) t in
-                    core (mul (of_Z w) (eff cfg scale)) (mul (of_Z h) (eff cfg scale)) cw ch cols rows mc mr)) = Ok v).
+                    core (mul (of_Z w) (eff cfg scale)) (mul (of_Z h) (eff cfg scale))
+                         (if asp then of_Z w else mul (of_Z w) (eff cfg scale)) (if asp then of_Z h else mul (of_Z h) (eff cfg scale))
+                         cw ch cols rows mc mr)) = Ok v).
     { destruct cols, rows; try exact E. exfalso. apply NB. split; reflexivity. }
     clear E.
     destruct (match cols with Some c => c <=? 0 | None => false end) eqn:E1; [discriminate|].
@@ -83,9 +87,9 @@ Section Generic.
     cbv zeta in E'. destruct (get_cell_size _ _ t) as [cw ch]. exact E'.
   Qed.
 
-  Lemma bounds cap (cfg : config num) t w h cols rows amc amr scale C R :
+  Lemma bounds cap asp (cfg : config num) t w h cols rows amc amr scale C R :
     ~ (is_some cols = true /\ is_some rows = true) ->
-    opt cap cfg t w h cols rows amc amr scale = Ok (C, R) ->
+    opt cap asp cfg t w h cols rows amc amr scale = Ok (C, R) ->
     exists mc mr, get_max_cols_and_rows (cfg_max_cols _ cfg) (cfg_max_rows _ cfg) t amc amr = Ok (mc, mr) /\
                   1 <= C <= mc /\ 1 <= R <= mr /\ mr <= 256.
   Proof.
@@ -94,17 +98,17 @@ Section Generic.
     apply core_bounds in E; lia.
   Qed.
 
-  Lemma explicit_verbatim cap (cfg : config num) t w h c r amc amr scale :
-    opt cap cfg t w h (Some c) (Some r) amc amr scale = Ok (c, r).
+  Lemma explicit_verbatim cap asp (cfg : config num) t w h c r amc amr scale :
+    opt cap asp cfg t w h (Some c) (Some r) amc amr scale = Ok (c, r).
   Proof. reflexivity. Qed.
 
   (* explicit cols within the limit: kept, unless the rows derived from it exceeded the row limit *)
-  Lemma cols_kept (cfg : config num) t w h c amc amr scale C R mc mr :
+  Lemma cols_kept asp (cfg : config num) t w h c amc amr scale C R mc mr :
     get_max_cols_and_rows (cfg_max_cols _ cfg) (cfg_max_rows _ cfg) t amc amr = Ok (mc, mr) ->
     c <= mc ->
-    opt true cfg t w h (Some c) None amc amr scale = Ok (C, R) ->
+    opt true asp cfg t w h (Some c) None amc amr scale = Ok (C, R) ->
     C = c \/
-    exists r0, rfc (mul (of_Z w) (eff cfg scale)) (mul (of_Z h) (eff cfg scale))
+    exists r0, rfc (if asp then of_Z w else mul (of_Z w) (eff cfg scale)) (if asp then of_Z h else mul (of_Z h) (eff cfg scale))
                    (fst (get_cell_size (cfg_cell_size _ cfg) (cfg_default_cell_size _ cfg) t))
                    (snd (get_cell_size (cfg_cell_size _ cfg) (cfg_default_cell_size _ cfg) t)) c = Ok r0 /\
                mr < r0 /\ R = mr.
@@ -124,12 +128,12 @@ Section Generic.
     - left. cbn [bind] in E. injection E as <- _. lia.
   Qed.
 
-  Lemma rows_kept (cfg : config num) t w h r amc amr scale C R mc mr :
+  Lemma rows_kept asp (cfg : config num) t w h r amc amr scale C R mc mr :
     get_max_cols_and_rows (cfg_max_cols _ cfg) (cfg_max_rows _ cfg) t amc amr = Ok (mc, mr) ->
     r <= mr ->
-    opt true cfg t w h None (Some r) amc amr scale = Ok (C, R) ->
+    opt true asp cfg t w h None (Some r) amc amr scale = Ok (C, R) ->
     R = r \/
-    exists c0, cfr (mul (of_Z w) (eff cfg scale)) (mul (of_Z h) (eff cfg scale))
+    exists c0, cfr (if asp then of_Z w else mul (of_Z w) (eff cfg scale)) (if asp then of_Z h else mul (of_Z h) (eff cfg scale))
                    (fst (get_cell_size (cfg_cell_size _ cfg) (cfg_default_cell_size _ cfg) t))
                    (snd (get_cell_size (cfg_cell_size _ cfg) (cfg_default_cell_size _ cfg) t)) r = Ok c0 /\
                mc < c0 /\ C = mc.
@@ -230,7 +234,7 @@ Section QCore.
   Qed.
 
   Lemma q_core_eq cols rows mc mr :
-    q_optimal_core W H cw ch cols rows mc mr =
+    q_optimal_core W H W H cw ch cols rows mc mr =
     Ok (optimalZ (cdiv wn (Z.pos wd * cw)) (cdiv hn (Z.pos hd * ch)) K L cols rows mc mr).
   Proof.
     unfold q_optimal_core, optimal_core, optimalZ. rewrite src_final_min_cols, src_final_min_rows.
@@ -316,6 +320,24 @@ Section QSpec.
   Qed.
 End QSpec.
 
+(* ================================================================ the scale cancels in exact arithmetic
+   deriving a dimension from the UNSCALED size x : y (what the source does since the repair of F-C15b) gives exactly
+   what deriving it from the scaled size x*s : y*s gives *)
+Lemma q_ratio_unscaled (k x y c : Z) (s : Q) : 0 < x -> 0 < y -> 0 < c -> (0 < s)%Q ->
+  bind (pydiv Q Qdiv q_is_zero (Qmult (inject_Z k) (inject_Z x)) (Qmult (inject_Z y) (inject_Z c))) (pyceil Q q_ceil) =
+  bind (pydiv Q Qdiv q_is_zero (Qmult (inject_Z k) (inject_Z x * s)) (Qmult (inject_Z y * s) (inject_Z c))) (pyceil Q q_ceil).
+Proof.
+  intros Hx Hy Hc Hs. unfold pydiv, q_is_zero.
+  assert (Hn : 0 < Qnum s) by (revert Hs; unfold Qlt; cbn [Qnum Qden]; lia).
+  replace (Qnum (inject_Z y * inject_Z c) =? 0) with false by (cbn [Qnum Qmult inject_Z]; nia).
+  replace (Qnum (inject_Z y * s * inject_Z c) =? 0) with false by (cbn [Qnum Qmult inject_Z]; nia).
+  cbn [bind]. unfold pyceil, q_ceil. cbv iota beta. f_equal. apply Qceiling_comp.
+  assert (~ inject_Z y == 0)%Q by (apply inj_nz; lia).
+  assert (~ inject_Z c == 0)%Q by (apply inj_nz; lia).
+  assert (~ s == 0)%Q by lra.
+  field. repeat split; assumption.
+Qed.
+
 (* ================================================================ Part 4: the rational instance meets the Spec *)
 Section QTheorems.
   Variable cfg : q_config.
@@ -339,10 +361,17 @@ Section QTheorems.
   Lemma H_pos : (0 < H)%Q.
   Proof. unfold H. apply Qmult_lt_0_compat; [|exact Hs]. replace 0%Q with (inject_Z 0) by reflexivity. rewrite <- Zlt_Qlt. exact Hh. Qed.
 
+  Lemma q_core_unscaled cols rows :
+    q_optimal_core W H (inject_Z w) (inject_Z h) cw ch cols rows mc mr = q_optimal_core W H W H cw ch cols rows mc mr.
+  Proof.
+    unfold q_optimal_core, optimal_core, cols_from_rows, rows_from_cols, W, H.
+    destruct cols as [c|], rows as [r|]; rewrite <- !q_ratio_unscaled by assumption; reflexivity.
+  Qed.
+
   (* with the limits and the cell size resolved, the call is the integer function *)
   Lemma q_opt_eq cols rows v :
     ~ (is_some cols = true /\ is_some rows = true) ->
-    q_optimal_with true cfg t w h cols rows amc amr scale = Ok v ->
+    q_optimal_with true true cfg t w h cols rows amc amr scale = Ok v ->
     (forall c, cols = Some c -> 1 <= c) /\ (forall r, rows = Some r -> 1 <= r) /\
     v = optimalZ (cdiv (Qnum W) (Z.pos (Qden W) * cw)) (cdiv (Qnum H) (Z.pos (Qden H) * ch))
                  (cw * Qnum H * Z.pos (Qden W)) (ch * Qnum W * Z.pos (Qden H))
@@ -352,24 +381,26 @@ Section QTheorems.
     destruct E as (H1 & H2 & mc' & mr' & EM & E). rewrite HM in EM. injection EM as <- <-.
     split; [exact H1|]. split; [exact H2|]. rewrite HC in E. cbn [fst snd] in E.
     fold (q_effective_scale cfg scale) in E. fold W in E. fold H in E.
+    change (q_optimal_core W H (inject_Z w) (inject_Z h) cw ch (option_map (fun c => Z.min c mc) cols)
+              (option_map (fun r => Z.min r mr) rows) mc mr = Ok v) in E.
+    rewrite q_core_unscaled in E.
     pose proof W_pos as PW. pose proof H_pos as PH.
     destruct W as [wn wd], H as [hn hd]. apply Qpos_num in PW, PH.
-    change (q_optimal_core (wn # wd) (hn # hd) cw ch (option_map (fun c => Z.min c mc) cols)
-              (option_map (fun r => Z.min r mr) rows) mc mr = Ok v) in E.
     rewrite q_core_eq in E by assumption. injection E as <-. reflexivity.
   Qed.
 
   (* clause 3: both automatic, and the smallest cell box containing the scaled image is within the limits *)
   Lemma auto_minimal C0 R0 :
     smallest_containing_box W H cw ch C0 R0 -> C0 <= mc -> R0 <= mr ->
-    q_optimal_with true cfg t w h None None amc amr scale = Ok (C0, R0).
+    q_optimal_with true true cfg t w h None None amc amr scale = Ok (C0, R0).
   Proof.
     intros S HC0 HR0.
     unfold q_optimal_with, optimal_with. rewrite HM. cbn [bind option_map]. rewrite HC.
     fold (q_effective_scale cfg scale). fold W. fold H.
+    change (q_optimal_core W H (inject_Z w) (inject_Z h) cw ch None None mc mr = Ok (C0, R0)).
+    rewrite q_core_unscaled.
     pose proof W_pos as PW. pose proof H_pos as PH.
     destruct W as [wn wd], H as [hn hd]. apply Qpos_num in PW, PH.
-    change (q_optimal_core (wn # wd) (hn # hd) cw ch None None mc mr = Ok (C0, R0)).
     rewrite q_core_eq by assumption.
     apply smallest_box_unique in S; try assumption. destruct S as [-> ->].
     rewrite optimalZ_auto_within; [reflexivity| |].
@@ -380,7 +411,7 @@ Section QTheorems.
   (* clause 4: no entirely unused row or column, unless both dimensions are explicit *)
   Lemma no_unused cols rows C R :
     ~ (is_some cols = true /\ is_some rows = true) ->
-    q_optimal_with true cfg t w h cols rows amc amr scale = Ok (C, R) ->
+    q_optimal_with true true cfg t w h cols rows amc amr scale = Ok (C, R) ->
     no_unused_row_or_col W H cw ch C R.
   Proof.
     intros NB E. apply q_opt_eq in E; [|exact NB]. destruct E as (H1 & H2 & E).
@@ -471,11 +502,11 @@ Section Final.
     gopt cfg t w h (Some c) None amc amr scale = Ok (C, R) ->
     C = c \/
     exists r0, rows_from_cols num of_Z mul div is_zero ceil
-                 (mul (of_Z w) (eff cfg scale)) (mul (of_Z h) (eff cfg scale))
+                 (of_Z w) (of_Z h)
                  (fst (get_cell_size (cfg_cell_size _ cfg) (cfg_default_cell_size _ cfg) t))
                  (snd (get_cell_size (cfg_cell_size _ cfg) (cfg_default_cell_size _ cfg) t)) c = Ok r0 /\
                mr < r0 /\ R = mr.
-  Proof. unfold get_optimal_cols_and_rows. rewrite src_caps_explicit. exact (cols_kept num of_Z mul div is_zero ceil one). Qed.
+  Proof. unfold get_optimal_cols_and_rows. rewrite src_caps_explicit, src_aspect_unscaled. exact (cols_kept num of_Z mul div is_zero ceil one true). Qed.
 
   Theorem thm_rows_kept : forall (cfg : config num) t w h r amc amr scale C R mc mr,
     get_max_cols_and_rows (cfg_max_cols _ cfg) (cfg_max_rows _ cfg) t amc amr = Ok (mc, mr) ->
@@ -483,11 +514,11 @@ Section Final.
     gopt cfg t w h None (Some r) amc amr scale = Ok (C, R) ->
     R = r \/
     exists c0, cols_from_rows num of_Z mul div is_zero ceil
-                 (mul (of_Z w) (eff cfg scale)) (mul (of_Z h) (eff cfg scale))
+                 (of_Z w) (of_Z h)
                  (fst (get_cell_size (cfg_cell_size _ cfg) (cfg_default_cell_size _ cfg) t))
                  (snd (get_cell_size (cfg_cell_size _ cfg) (cfg_default_cell_size _ cfg) t)) r = Ok c0 /\
                mc < c0 /\ C = mc.
-  Proof. unfold get_optimal_cols_and_rows. rewrite src_caps_explicit. exact (rows_kept num of_Z mul div is_zero ceil one). Qed.
+  Proof. unfold get_optimal_cols_and_rows. rewrite src_caps_explicit, src_aspect_unscaled. exact (rows_kept num of_Z mul div is_zero ceil one true). Qed.
 End Final.
 
 (* rational instance; W x H is the scaled image *)
@@ -502,7 +533,7 @@ Theorem thm_auto_minimal : forall (cfg : q_config) t w h amc amr scale mc mr cw 
     C0 <= mc -> R0 <= mr ->
     q_get_optimal_cols_and_rows cfg t w h None None amc amr scale = Ok (C0, R0).
 Proof.
-  unfold q_get_optimal_cols_and_rows, get_optimal_cols_and_rows. rewrite src_caps_explicit.
+  unfold q_get_optimal_cols_and_rows, get_optimal_cols_and_rows. rewrite src_caps_explicit, src_aspect_unscaled.
   exact auto_minimal.
 Qed.
 
@@ -515,8 +546,24 @@ Theorem thm_no_unused : forall (cfg : q_config) t w h amc amr scale mc mr cw ch,
     q_get_optimal_cols_and_rows cfg t w h cols rows amc amr scale = Ok (C, R) ->
     no_unused_row_or_col (scaled cfg scale w) (scaled cfg scale h) cw ch C R.
 Proof.
-  unfold q_get_optimal_cols_and_rows, get_optimal_cols_and_rows. rewrite src_caps_explicit.
+  unfold q_get_optimal_cols_and_rows, get_optimal_cols_and_rows. rewrite src_caps_explicit, src_aspect_unscaled.
   exact no_unused.
+Qed.
+
+(* deriving from the unscaled or from the scaled size: the same rational answer *)
+Theorem thm_scale_free : forall (cfg : q_config) t w h cols rows amc amr scale,
+  0 < w -> 0 < h -> (0 < q_effective_scale cfg scale)%Q ->
+  (let '(cw, ch) := get_cell_size (cfg_cell_size _ cfg) (cfg_default_cell_size _ cfg) t in 0 < cw /\ 0 < ch) ->
+  q_optimal_with true true cfg t w h cols rows amc amr scale = q_optimal_with true false cfg t w h cols rows amc amr scale.
+Proof.
+  intros cfg t w h cols rows amc amr scale Hw Hh Hs Hcell.
+  unfold q_optimal_with, optimal_with.
+  destruct cols as [c|], rows as [r|]; try reflexivity;
+    repeat match goal with |- (if ?b then _ else _) = (if ?b then _ else _) => destruct b; [reflexivity|] end;
+    destruct (get_max_cols_and_rows _ _ t amc amr) as [[mc mr]|e] eqn:EM; cbn [bind]; try reflexivity;
+    destruct (get_cell_size _ _ t) as [cw ch] eqn:EC; destruct Hcell as [Hcw Hch];
+    fold (q_effective_scale cfg scale);
+    apply (q_core_unscaled cfg w h scale mc mr cw ch Hw Hh Hcw Hch Hs).
 Qed.
 
 (* the smallest containing box always exists (so thm_auto_minimal is not vacuous) *)
@@ -548,7 +595,7 @@ Qed.
 Definition refute_cfg : q_config := Build_config Q None (8, 16) (Some 1%Q) 1%Q None None.
 Definition refute_term : term := term_of_winsize (Build_winsize 24 80 640 384).
 Theorem thm_uncapped_refuted :
-  q_optimal_with false refute_cfg refute_term 1 1 None (Some 3) None (Some 1) None = Ok (6, 1) /\
+  q_optimal_with false true refute_cfg refute_term 1 1 None (Some 3) None (Some 1) None = Ok (6, 1) /\
   ~ no_unused_row_or_col 1 1 8 16 6 1.
 Proof.
   split; [vm_compute; reflexivity|]. intros N.
